@@ -424,12 +424,13 @@ class Engine:
         return traces
 
     def validate(self, traces):
-        slim = [{'id': t['id'], 'cx': t['cx'], 'events': t['events']} for t in traces]
+        slim = [{'id': t['id'], 'cx': t['cx'], 'events': t['events'], 'decls': t['prog'].decls, 'cfg': t['prog'].cfg}
+                for t in traces]
         by_id = {t['id']: t for t in traces}
         rejected = core.validate_traces(self.chk, 'ShellRuntimeTrace', 'ShellRuntimeTrace.cfg', slim, batch=300)
-        strict = []
-        for run in self.chk.tlc_runs[-max(1, (len(slim) + 299) // 300):]:
-            pass
+        for line in getattr(self.chk, 'printed', []):
+            if line.startswith('<<"ROUTE-DIFFERS"'):
+                raise core.MachineryError('the routing table computed by the harness differs from ShellStructure.tla RouteOf: ' + line)
         for num, (trace, pos) in enumerate(rejected[:12]):
             full = by_id[trace['id']]
             exp = core.explain_trace('ShellRuntimeTrace', 'ShellRuntimeTrace.cfg', trace, pos) if num < 4 else None
